@@ -149,6 +149,18 @@ pub fn main(args: &Args) -> i32 {
                     _ => DefaultRate::<Naive>::validate(*k, *r, *sb),
                 };
                 let mut o = Obj::new().str("ev", "val").str("kind", kind).us("k", *k).us("r", *r).us("sb", *sb).raw("validate", &ret_json(v));
+                // the provided validate of the encoder / decoder traits
+                let ve = match kind {
+                    "high" => HighRateEncoder::<Naive>::validate(*k, *r, *sb),
+                    "low" => LowRateEncoder::<Naive>::validate(*k, *r, *sb),
+                    _ => DefaultRateEncoder::<Naive>::validate(*k, *r, *sb),
+                };
+                let vd = match kind {
+                    "high" => HighRateDecoder::<Naive>::validate(*k, *r, *sb),
+                    "low" => LowRateDecoder::<Naive>::validate(*k, *r, *sb),
+                    _ => DefaultRateDecoder::<Naive>::validate(*k, *r, *sb),
+                };
+                o = o.raw("validate_enc", &ret_json(ve)).raw("validate_dec", &ret_json(vd));
                 // constructors (small shard sizes only: allocation), on a rotating subset
                 if *sb <= 64 && (ci + si) % 3 == 0 {
                     let enc = std::panic::catch_unwind(|| match kind {
@@ -163,6 +175,19 @@ pub fn main(args: &Args) -> i32 {
                     });
                     o = o.raw("new_enc", &enc.map_or_else(|_| util::panic_json("panic"), ret_json));
                     o = o.raw("new_dec", &dec.map_or_else(|_| util::panic_json("panic"), ret_json));
+                    // the provided constructors of the Rate trait
+                    let renc = std::panic::catch_unwind(|| match kind {
+                        "high" => HighRate::<Naive>::encoder(*k, *r, *sb, Naive::new(), None).map(|_| ()),
+                        "low" => LowRate::<Naive>::encoder(*k, *r, *sb, Naive::new(), None).map(|_| ()),
+                        _ => DefaultRate::<Naive>::encoder(*k, *r, *sb, Naive::new(), None).map(|_| ()),
+                    });
+                    let rdec = std::panic::catch_unwind(|| match kind {
+                        "high" => HighRate::<Naive>::decoder(*k, *r, *sb, Naive::new(), None).map(|_| ()),
+                        "low" => LowRate::<Naive>::decoder(*k, *r, *sb, Naive::new(), None).map(|_| ()),
+                        _ => DefaultRate::<Naive>::decoder(*k, *r, *sb, Naive::new(), None).map(|_| ()),
+                    });
+                    o = o.raw("rate_enc", &renc.map_or_else(|_| util::panic_json("panic"), ret_json));
+                    o = o.raw("rate_dec", &rdec.map_or_else(|_| util::panic_json("panic"), ret_json));
                     if kind == "default" {
                         let e = std::panic::catch_unwind(|| ReedSolomonEncoder::new(*k, *r, *sb).map(|_| ()));
                         let d = std::panic::catch_unwind(|| ReedSolomonDecoder::new(*k, *r, *sb).map(|_| ()));
